@@ -9,7 +9,7 @@ ID = "C08"
 LEVEL = "exploration"
 TECHNIQUE = "exhaustive enumeration of sense buffers (response codes x valid bit x sense keys x all 65536 ASC/ASCQ pairs x all lengths 1..252 x filler bytes); construction, str(), print() and print_data must not raise and key/ASC/ASCQ are compared with SPC's positions extracted by the independent bit oracle"
 RULE = ("quick: all 65536 ASC/ASCQ pairs x response codes {70h,72h} (key 5) + {71h,73h} (key 6); 16 keys x 9 response codes {70-73,00,6F,74,7E,7F} "
-        "x valid bit x 64 ASC/ASCQ pairs; every length 1..252 x 9 response codes x filler {00,FF} x ADDITIONAL SENSE LENGTH {exact n-7, 0, FFh} with and without print_data; all ordered pairs and triples of 12 sense buffers built in sequence and kept alive, each compared afterwards with what it reports alone; "
+        "x valid bit x 64 ASC/ASCQ pairs; every length 1..252 x 9 response codes x filler {00,FF} x ADDITIONAL SENSE LENGTH {exact n-7, 0, FFh} with and without print_data; descriptor format x 16 keys x sense data descriptors of 18 types x 7 ADDITIONAL LENGTH values x 4 contents (incl. nested sense data) singly and in pairs; every byte position of the minimal buffer x 256 values x 16 keys; all ordered pairs and triples of 12 sense buffers built in sequence and kept alive, each compared afterwards with what it reports alone; "
         "thorough: the full product 9 codes x 2 valid x 16 keys x 65536 pairs. Non-trivial = anything other than the all-zero 18-byte fixed "
         "buffer; distinct = distinct buffers (x print flag).")
 ASSUMPTIONS = [
@@ -172,6 +172,8 @@ def partitions(tier):
     parts += [["keys", c] for c in CODES]
     parts += [["lengths", c] for c in CODES]
     parts += [["sequences", i] for i in range(len(SEQ_ALPHA))]
+    parts += [["descriptors", c, k] for c in (0x72, 0x73) for k in range(16)]
+    parts += [["bytes", c] for c in (0x70, 0x71, 0x72, 0x73)]
     if bounds(tier)["full_product"]:
         parts += [["full", c, v, k] for c in CODES for v in (0, 1) for k in range(16)]
     return parts
@@ -210,6 +212,55 @@ def run_partition(part, tier, seed):
             for k, w in v:
                 acc.violation(k, w, case)
             acc.outcome(("seq", tuple(idxs), tuple(k for k, _ in v)))
+        return acc
+    if kind == "descriptors":
+        # descriptor format: every sense key x sense data descriptors of every type 00h-0Fh, 80h, FFh x ADDITIONAL LENGTH
+        # {0, 1, 2, the standard's length, 6, 0x14, beyond the buffer} x contents {00, FF, nested fixed sense, nested descriptor sense};
+        # singly, and in pairs (second one after the first)
+        _, c, k = part
+        std_len = {0x00: 0x0A, 0x01: 0x0A, 0x02: 0x06, 0x03: 0x02, 0x04: 0x02, 0x05: 0x02, 0x06: 0x06, 0x07: 0x06, 0x08: 0x0A, 0x09: 0x0C,
+                   0x0A: 0x1E, 0x0B: 0x02, 0x0C: 0x16, 0x0D: 0x0E, 0x0E: 0x1E}
+        types = list(range(0x10)) + [0x80, 0xFF]
+        nested = [bytes([0x70, 0, 3, 0, 0, 0, 0, 10, 0, 0, 0, 0, 0x11, 0x00, 0, 0, 0, 0]), bytes([0x72, 3, 0x11, 0, 0, 0, 0, 0])]
+
+        def desc(t, ln, fill):
+            if fill in (0, 0xFF):
+                body = bytes([fill]) * min(ln, 0x40)
+            else:
+                body = (bytes([0, 2]) + nested[fill - 1])[:min(ln, 0x40)]      # (forwarded sense: reserved byte, status, then the sense data)
+                body += bytes(min(ln, 0x40) - len(body))
+            return bytes([t, ln]) + body
+
+        singles = []
+        for t in types:
+            for ln in sorted({0, 1, 2, 6, 0x14, std_len.get(t, 4), 0xF4}):
+                for fill in (0, 0xFF, 1, 2):
+                    singles.append(desc(t, ln, fill))
+        for asc, ascq in ((0x0D, 0x02), (0x26, 0x0D), (0x00, 0x00)):
+            for d1 in singles:
+                b = bytearray([c, k, asc, ascq, 0, 0, 0, len(d1)]) + d1
+                do(bytes(b))
+                do(bytes(b), True)
+        small = [desc(t, ln, fill) for t in (0x00, 0x02, 0x09, 0x0C, 0x0D, 0x80) for ln, fill in ((0, 0), (2, 0xFF), (std_len.get(t, 4), 1))]
+        for d1 in small:
+            for d2 in small:
+                b = bytearray([c, k, 0x0D, 0x02, 0, 0, 0, len(d1) + len(d2)]) + d1 + d2
+                do(bytes(b))
+        return acc
+    if kind == "bytes":
+        # every byte position of the minimal well-formed buffer (18 fixed / 8+12 descriptor) x all 256 values x all 16 sense keys
+        c = part[1]
+        for k in range(16):
+            base = bytearray(make(c, 0, k, 0x24, 0x00))
+            if c in (0x72, 0x73):
+                base += bytes([0x00, 0x0A]) + bytes(10)
+                base[7] = 12
+            for i in range(len(base)):
+                for v in range(256):
+                    if base[i] != v:
+                        m = bytearray(base)
+                        m[i] = v
+                        do(bytes(m))
         return acc
     if kind == "pairs":
         _, c, hi = part
